@@ -80,7 +80,7 @@ def cases(draw):
         spec = m.specs[(t, keys[i])]
         v0 = f[keys[i]]
         patterns = [v0[:1] + "*", "*" + v0[-1:], "x*", "y*", "zz*", "!*", "+*", "A*"] if spec.free else ["zz"]
-        alts = [v0] + [draw(st.one_of(gens.entity_value(m, t, keys[i]), st.just("zz"), st.sampled_from(patterns)))
+        alts = [v0] + [draw(st.one_of(gens.entity_value(m, t, keys[i]), st.just("zz"), st.sampled_from(patterns), st.just("*")))
                        for _ in range(draw(st.integers(1, 2)))]
         if mixed:
             alts.append(draw(st.sampled_from(patterns)))
